@@ -330,14 +330,24 @@ def attrib_roles(ctx, roles):
     dec = ctx.api("decoder")
     aug = _loop_counters(dec, call)
     pairs = list(zip(D.posparams, call.args)) + [(k.arg, k.value) for k in call.keywords]
+    def resolve(a):
+        """a local bound exactly once in decoder() stands for the expression it was bound to"""
+        if isinstance(a, ast.Name) and a.id not in aug:
+            defs = [n.value for n in own_nodes(dec.node) if isinstance(n, ast.Assign) and len(n.targets) == 1
+                    and isinstance(n.targets[0], ast.Name) and n.targets[0].id == a.id]
+            if len(defs) == 1:
+                return defs[0]
+        return a
     for p, a in pairs:
         if isinstance(a, ast.Name) and a.id in aug:
             roles["offset"] = p
             roles["offset_local"] = a.id
-        elif isinstance(a, ast.Call) and isinstance(a.func, ast.Name) and a.func.id == "enumerate":
+            continue
+        a = resolve(a)
+        if isinstance(a, ast.Call) and isinstance(a.func, ast.Name) and a.func.id == "enumerate":
             roles["iter"] = p
             roles["iter_expr"] = a
-        elif isinstance(a, ast.IfExp) and isinstance(a.orelse, ast.Constant) and a.orelse.value is None and isinstance(a.body, ast.List):
+        if isinstance(a, ast.IfExp) and isinstance(a.orelse, ast.Constant) and a.orelse.value is None and isinstance(a.body, ast.List):
             roles["stack"] = p
     for need in ("offset", "iter", "stack"):
         if need not in roles:
@@ -648,6 +658,14 @@ def check_writer(ctx, rep, R1, R2):
                     and isinstance(node, ast.Call) and len(node.args) == 1 and isinstance(node.args[0], ast.Name) \
                     and node.args[0].id == wr["list_local"] and _total_length_function(ctx, callee):
                 return [(st, Num(st.env[GLEN].lin))]
+            if isinstance(callee, tuple) and callee[0] == "method" and callee[1] == "join" and isinstance(callee[2], Con) and callee[2].value == "" \
+                    and fr.func is top and isinstance(node, ast.Call) and len(node.args) == 1 and isinstance(node.args[0], ast.Name) \
+                    and node.args[0].id == wr["list_local"]:
+                # "".join(<fragment's token list>): a string whose length is the number of characters written
+                v = Unk(("joined-fragment", next(eng.counter)))
+                s2 = st.copy()
+                s2.add_lin(eq(Lin.var(("len", vkey(v), 0)) - s2.env[GLEN].lin, 0))
+                return [(s2, v)]
             return None
     eng2 = Engine(ctx, TH())
     st2 = State()
